@@ -1,6 +1,7 @@
 package yqlib
 
 import (
+	"bufio"
 	"bytes"
 	"container/list"
 	"io"
@@ -385,3 +386,41 @@ func VerifC10Origin() {
 	verifCover("C10/origin/end")
 }
 
+
+// VerifC10FilesToText: two files through the real stream evaluator, YAML decoder, printer and YAML encoder (one of
+// each, as the command uses them); the printed text, read again, holds exactly the documents of file one followed by
+// those of file two — N input documents give N output documents, with the same data — also when a file starts with
+// comments, a separator, or both.
+func VerifC10FilesToText() {
+	texts := append(append([]string{}, c10Texts...), "# c\n---\nb: 2\n", "# c\n\n---\n# d\nb: 2\n", "x: 1\n---\ny: 2\n")
+	t0 := verifChoice("file0", len(texts))
+	t1 := verifChoice("file1", len(texts))
+	if t0 == 1 || t0 == 4 || t1 == 1 || t1 == 4 {
+		return // files without any document (comments only, empty) are the subject of VerifC10RealFiles and C05
+	}
+	prefs := NewDefaultYamlPreferences()
+	var sb strings.Builder
+	printer := NewPrinter(NewYamlEncoder(prefs), NewSinglePrinterWriter(bufio.NewWriter(vSBWriter{&sb})))
+	ev := NewStreamEvaluator()
+	dec := NewYamlDecoder(prefs)
+	exp := vParse(".")
+	total := uint(0)
+	for i, t := range []string{texts[t0], texts[t1]} {
+		n, err := ev.Evaluate("f"+verifItoa(int64(i))+".yml", strings.NewReader(t), exp, printer, dec)
+		if err != nil {
+			verifCover("C10/files-to-text/error")
+			return
+		}
+		total += n
+	}
+	want0, ok0 := c05Data(texts[t0])
+	want1, ok1 := c05Data(texts[t1])
+	got, okGot := c05Data(sb.String())
+	verifObserve("out", sb.String())
+	verifAssert(ok0 && ok1 && okGot, "C10/printed-text-of-two-files-is-not-accepted-again")
+	if !(ok0 && ok1 && okGot) {
+		return
+	}
+	verifAssert(got == want0+want1, "C10/printed-text-of-two-files-holds-other-documents")
+	verifCover("C10/files-to-text/end")
+}
